@@ -8,7 +8,7 @@ from .. import core
 PROP = "C09"
 
 CALLABLES = ["func", "method", "static", "classm", "pset", "afunc", "amethod"]
-FORMS = ["none", "cls", "inst", "func", "lambda", "bound", "static_via_class", "classm_via_class", "base_cls", "base_inst", "falsy_inst", "falsy_cls"]
+FORMS = ["none", "cls", "inst", "func", "lambda", "bound", "static_via_class", "classm_via_class", "base_cls", "base_inst", "falsy_inst", "falsy_cls", "callable_inst"]
 
 PRELUDE = '''\
 import functools
@@ -27,6 +27,12 @@ class FalsyErr(Exception):
     def __bool__(self): return False
 class EmptyErr(Exception):
     def __len__(self): return 0
+class CallableErr(Exception):
+    # an exception whose instances are callable (e.g., WSGI-style HTTP errors): still an instance, raised as that same object
+    def __call__(self, *args, **kwargs):
+        LOG.append(('ef', {'called': True}))
+        return MyErr('from __call__')
+CINST = CallableErr("the callable instance")
 FINST = FalsyErr("the falsy instance")
 INST = MyErr("the instance")
 BINST = MyBase("the base instance")
@@ -73,6 +79,8 @@ def render(case):
         err = ", error=BINST"
     elif form == "falsy_inst":
         err = ", error=FINST"
+    elif form == "callable_inst":
+        err = ", error=CINST"
     elif form == "falsy_cls":
         err = ", error=FalsyErr"
     elif form == "func":
@@ -300,8 +308,8 @@ def run_case(case, acc):
                 want = {"cls": ns["MyErr"], "base_cls": ns["MyBase"], "falsy_cls": ns["FalsyErr"]}[form]
                 if type(exc) is not want or len(exc.args) != 1 or not MSG_RE.match(str(exc.args[0])):
                     viol("error_class", "call {}: expected {}(generated message), got {!r}".format(i, want.__name__, exc))
-            elif form in ("inst", "base_inst", "falsy_inst"):
-                want = {"inst": ns["INST"], "base_inst": ns["BINST"], "falsy_inst": ns["FINST"]}[form]
+            elif form in ("inst", "base_inst", "falsy_inst", "callable_inst"):
+                want = {"inst": ns["INST"], "base_inst": ns["BINST"], "falsy_inst": ns["FINST"], "callable_inst": ns["CINST"]}[form]
                 if exc is not want:
                     viol("error_instance_identity", "call {} (violation #{}): raised {!r} (id {}) is not the configured instance (id {})".format(
                         i, [r[0] for r in results[: i + 1]].count(False), exc, id(exc), id(want)))
